@@ -37,6 +37,15 @@ def make_scratch(repo):
     return d
 
 
+def apply_patch_file(d, rel):
+    """Apply a unified diff stored under fixtures/patches/ to the scratch copy (used for larger refactors / seeded changes)."""
+    pf = os.path.join(VERIF, "fixtures", "patches", rel)
+    if not os.path.exists(pf):
+        return False
+    r = subprocess.run(["patch", "-p1", "-s", "-f", "-d", d, "-i", pf], stdout=subprocess.PIPE, stderr=subprocess.STDOUT)
+    return r.returncode == 0
+
+
 def apply_edits(d, edits):
     for e in edits:
         p = os.path.join(d, e["file"])
@@ -68,7 +77,9 @@ def ensure_target(slot):
 def run_fixture(prop, mod, fx, repo, slot):
     d = make_scratch(repo)
     try:
-        if not apply_edits(d, fx["edits"]):
+        if fx.get("patch_file") and not apply_patch_file(d, fx["patch_file"]):
+            return {"name": fx["name"], "status": "skipped", "detail": "patch does not apply to this tree"}
+        if not apply_edits(d, fx.get("edits", [])):
             return {"name": fx["name"], "status": "skipped", "detail": "edit does not apply to this tree"}
         try:
             fd, meta = X.extract(d, "all", target_tag=ensure_target(slot))
